@@ -115,6 +115,20 @@ func c20IsBasic(x ast.Expr) bool {
 	return false
 }
 
+// c20BasicKind: the JSON kind a basic-typed field accepts.
+func c20BasicKind(x ast.Expr) string {
+	if st, ok := x.(*ast.StarExpr); ok {
+		x = st.X
+	}
+	switch x.(*ast.Ident).Name {
+	case "string":
+		return "string"
+	case "bool":
+		return "bool"
+	}
+	return "num"
+}
+
 func extractC20Types(repo string) (string, error) {
 	env, _, err := c20LoadPackage(repo)
 	if err != nil {
@@ -125,7 +139,7 @@ func extractC20Types(repo string) (string, error) {
 		names = append(names, n)
 	}
 	sort.Strings(names)
-	var fields, wrappers, maplikes, embedded, firstExt, plain []string
+	var fields, wrappers, maplikes, embedded, firstExt, plain, kinds []string
 	for _, n := range names {
 		st, ok := env.specs[n].Type.(*ast.StructType)
 		if !ok {
@@ -167,6 +181,7 @@ func extractC20Types(repo string) (string, error) {
 					fields = append(fields, fmt.Sprintf("⟨%q, %q, %s⟩", n, tag, env.ty(f.Type, 0)))
 					if c20IsBasic(f.Type) {
 						plain = append(plain, fmt.Sprintf("%q", n+"."+tag))
+						kinds = append(kinds, fmt.Sprintf("(%q, %q)", n+"."+tag, c20BasicKind(f.Type)))
 					}
 				}
 			}
@@ -189,6 +204,8 @@ func extractC20Types(repo string) (string, error) {
 	sb.WriteString("def c20ExtensionsFirst : List String := [\n  " + strings.Join(firstExt, ", ") + "]\n\n")
 	// "Owner.tag" of the tagged fields whose declared type is a predeclared basic type or a pointer to one
 	// (encoding/json rejects a JSON object or array there; no named type, no custom unmarshaller in between)
-	sb.WriteString("def c20PlainScalars : List String := [\n  " + strings.Join(plain, ", ") + "]\n\nend KinModel.Gen\n")
+	sb.WriteString("def c20PlainScalars : List String := [\n  " + strings.Join(plain, ", ") + "]\n\n")
+	// the JSON kind each of them accepts: "string", "bool" or "num"
+	sb.WriteString("def c20ScalarKinds : List (String × String) := [\n  " + strings.Join(kinds, ", ") + "]\n\nend KinModel.Gen\n")
 	return sb.String(), nil
 }
